@@ -69,7 +69,8 @@ func run(c *core.Case, st *core.CaseStats, seed int64) {
 		var o struct {
 			Diff  []int `json:"diff"`
 			Inter []int `json:"inter"`
-			Equal bool  `json:"equal"`
+			Equal    bool  `json:"equal"`
+			EqualNaN bool  `json:"equalnan"`
 		}
 		json.Unmarshal(c.Out, &o)
 		if len(s) > 1 {
@@ -136,6 +137,26 @@ func run(c *core.Case, st *core.CaseStats, seed int64) {
 		var e bool
 		if guard("Equal", nil, func() { e = slicez.Equal(mk(s, true), mk(s2, false)) }) && e != o.Equal {
 			rep("Equal", "value", map[string]interface{}{"s1": s, "s2": s2}, o.Equal, e)
+		}
+		// the same with float elements, the value 2 being NaN; for equal operands also both arguments in the same memory
+		fl := func(x []int) []float64 {
+			out := make([]float64, len(x))
+			for i, v := range x {
+				out[i] = float64(v)
+				if v == 2 {
+					out[i] = math.NaN()
+				}
+			}
+			return out
+		}
+		f1, f2 := fl(s), fl(s2)
+		if guard("Equal", nil, func() { e = slicez.Equal(f1, f2) }) && e != o.EqualNaN {
+			rep("Equal", "value", map[string]interface{}{"s1": s, "s2": s2, "elements": "float64, 2 = NaN", "memory": "separate"}, o.EqualNaN, e)
+		}
+		if eq(s, s2) {
+			if guard("Equal", nil, func() { e = slicez.Equal(f1, f1[0:len(f1):len(f1)]) }) && e != o.EqualNaN {
+				rep("Equal", "value", map[string]interface{}{"s1": s, "s2": s2, "elements": "float64, 2 = NaN", "memory": "the same slice twice"}, o.EqualNaN, e)
+			}
 		}
 	case "one":
 		var o struct {
